@@ -19,8 +19,9 @@
     prev(first) = period_start - 1, prev(next) = evaluation date of the cell before, prev < eval,
     one field list, values compatible as above (mono). *)
 From Coq Require Import ZArith List Bool.
+From Bermuda Require Import Model.Order Proofs.TriangleP.
 From Bermuda Require Import Model.Base Model.Basis Proofs.BasisEq Proofs.BasisTri Proofs.BasisP
-     Proofs.BasisSpec.
+     Proofs.BasisSpec Proofs.BasisCanon.
 Import ListNotations.
 Local Open Scope Z_scope.
 
@@ -269,3 +270,84 @@ Example C04_spec_nonvacuous :
         [cc default_meta 738156 738520 738520 512000 1024 0 0;
          mkCell KCum 738156 738520 738885 None default_meta [(PL, VNum (Num true 1536))]]] = true.
 Proof. vm_compute. repeat split; reflexivity. Qed.
+
+(* ------------------------------------------------------------------ 7. whole triangles THROUGH the constructor *)
+(* The conversions end in `Triangle(result_cells)`; [mk_triangle] (Model/Order.v, property C01) is that
+   constructor: one cell class, then sort by Cell.__lt__ / IncrementalCell.__lt__ ([cell_cmp]).
+   Hypotheses, all explicit:
+     mk_triangle t = Ok t      t is a Triangle's cell list (sorted, one class);
+     cells_comparable t        no two cells whose metadata cannot be compared (TypeError);
+     meta_separated t          metadata that are Python-== are identical (so grouping by
+                               Metadata.__eq__, as the code does, and by structural equality, as
+                               the model does, coincide; [cells_separated] is not needed);
+     row conditions            on [group_cells t], which by 7d ARE the (slice, period) rows.
+   Result: the rows the model emits, concatenated in group order, are already sorted w.r.t.
+   cell_cmp, so the constructor's sort is the identity on them -- the "final sort is not modelled"
+   gap of sections 1-6 is closed. *)
+
+(* 7d. grouping of a canonical triangle: first-occurrence grouping = maximal runs of consecutive
+   cells with one (period, metadata) = the (slice, period) rows in canonical order *)
+Theorem C04_grouping_canonical : forall t,
+  mk_triangle t = Ok t -> cells_comparable t -> meta_separated t ->
+  group_cells t = runs t /\ concat (group_cells t) = t /\ rows_okb (group_cells t) = true.
+Proof. exact PC_grouping. Qed.
+Print Assumptions C04_grouping_canonical.
+
+(* 7a. to_incremental, then the constructor *)
+Theorem C04_to_incremental_canonical : forall d t,
+  spec_ok d = true -> mk_triangle t = Ok t -> cells_comparable t -> meta_separated t ->
+  forallb (cum_row_okb d false) (group_cells t) = true ->
+  exists outs, bind (to_incremental d t) mk_triangle = Ok (concat outs)
+               /\ to_incremental d t = Ok (concat outs)
+               /\ rows_structb (group_cells t) outs = true.
+Proof. exact PC_to_incremental. Qed.
+Print Assumptions C04_to_incremental_canonical.
+
+(* 7b. to_cumulative, then the constructor: the original cells are the increments of the result *)
+Theorem C04_to_cumulative_canonical : forall d x,
+  spec_ok d = true -> mk_triangle x = Ok x -> cells_comparable x -> meta_separated x ->
+  forallb (inc_row_okb d) (group_cells x) = true ->
+  exists outs, bind (to_cumulative d x) mk_triangle = Ok (concat outs)
+               /\ to_cumulative d x = Ok (concat outs)
+               /\ rows_structb outs (group_cells x) = true
+               /\ Forall (fun c => ckind c = KCum) (concat outs).
+Proof. exact PC_to_cumulative. Qed.
+Print Assumptions C04_to_cumulative_canonical.
+
+(* 7c. the two round trips, every conversion followed by the constructor, any number of slices/periods *)
+Theorem C04_roundtrip_cum_canonical : forall d t,
+  spec_ok d = true -> mk_triangle t = Ok t -> cells_comparable t -> meta_separated t ->
+  forallb (cum_row_okb d true) (group_cells t) = true ->
+  bind (bind (to_incremental d t) mk_triangle) (fun i => bind (to_cumulative d i) mk_triangle)
+  = Ok (map retag_cum t).
+Proof. exact PC_roundtrip_cum. Qed.
+Print Assumptions C04_roundtrip_cum_canonical.
+
+Theorem C04_roundtrip_inc_canonical : forall d x,
+  spec_ok d = true -> mk_triangle x = Ok x -> cells_comparable x -> meta_separated x ->
+  forallb (inc_row_okb d) (group_cells x) = true ->
+  bind (bind (to_cumulative d x) mk_triangle) (fun c => bind (to_incremental d c) mk_triangle)
+  = Ok x.
+Proof. exact PC_roundtrip_inc. Qed.
+Print Assumptions C04_roundtrip_inc_canonical.
+
+(* 3 (slice, period) rows; metadata "A"/"US" sorts before "Accident" *)
+Definition ex_canon_cum : list cell :=
+  nth 2 ex_cum_rows [] ++ nth 0 ex_cum_rows [] ++ nth 1 ex_cum_rows [].
+Definition ex_canon_inc : list cell := nth 1 ex_inc_rows [] ++ nth 0 ex_inc_rows [].
+Example C04_canonical_nonvacuous :
+  mk_triangle ex_canon_cum = Ok ex_canon_cum /\ cells_comparable ex_canon_cum
+  /\ meta_separated ex_canon_cum
+  /\ forallb (cum_row_okb std_desc true) (group_cells ex_canon_cum) = true
+  /\ length (group_cells ex_canon_cum) = 3%nat /\ length ex_canon_cum = 9%nat
+  /\ mk_triangle ex_canon_inc = Ok ex_canon_inc /\ cells_comparable ex_canon_inc
+  /\ meta_separated ex_canon_inc
+  /\ forallb (inc_row_okb std_desc) (group_cells ex_canon_inc) = true
+  /\ length (group_cells ex_canon_inc) = 2%nat /\ length ex_canon_inc = 7%nat.
+Proof.
+  repeat split; try (vm_compute; reflexivity).
+  - apply comparableb_spec. vm_compute. reflexivity.
+  - apply meta_separatedb_spec. vm_compute. reflexivity.
+  - apply comparableb_spec. vm_compute. reflexivity.
+  - apply meta_separatedb_spec. vm_compute. reflexivity.
+Qed.
